@@ -132,7 +132,7 @@ theorem rel_loop (aid : Nat) (L : List VQ) (N : Nat) (hN : L.length = N) (now : 
       simp only [hdec, if_true, Bool.not_true, Bool.false_eq_true, if_false]
       by_cases hlast : i + 1 = N
       · have hl : ((i : Int) = (N : Int) - 1) := by omega
-        simp only [hl, decide_true, if_true]
+        simp only [hl, decide_true, if_true, Bool.not_true, Bool.not_false, Bool.false_eq_true, if_false, decide_false]
         obtain ⟨a', E, h1, h2⟩ := ih (i + 1) { a with status := Status.finished }
           (effs ++ [GEff.mk GName.sendCoins [GVal.addr (Addr.vest a.id), GVal.nat a.auctioneer, GVal.coin (Go.vqCoin q)]]
             ++ [GEff.mk GName.vqSet [GVal.int (q.auction : Int), GVal.int q.release, GVal.vq { q with released := true }]]
@@ -163,7 +163,7 @@ theorem rel_loop (aid : Nat) (L : List VQ) (N : Nat) (hN : L.length = N) (now : 
               simp only [hlast, hid, hqa] at h3 ⊢
               exact h3
       · have hl : ¬ ((i : Int) = (N : Int) - 1) := by omega
-        simp only [hl, decide_false, Bool.false_eq_true, if_false]
+        simp only [hl, decide_false, Bool.false_eq_true, if_false, Bool.not_true, Bool.not_false, if_true, decide_true]
         obtain ⟨a', E, h1, h2⟩ := ih (i + 1) a
           (effs ++ [GEff.mk GName.sendCoins [GVal.addr (Addr.vest a.id), GVal.nat a.auctioneer, GVal.coin (Go.vqCoin q)]]
             ++ [GEff.mk GName.vqSet [GVal.int (q.auction : Int), GVal.int q.release, GVal.vq { q with released := true }]]) hid hq'
@@ -216,7 +216,11 @@ theorem tie_ApplyVestingSchedules (c : Ctx) (aid : Nat) (v : AView) (hv : c.s.vi
   unfold applyVestingSchedules Gen.ApplyVestingSchedules
   simp only [Ctx.view, hv, Ctx.bal]
   by_cases he : v.a.schedules = []
-  · simp [he, runSettlePlan, applySettle, dstOf, hid, bind, Except.bind, pure, Except.pure]
+  · -- with no schedules a loop the code may still run over them (a merged branch) does nothing:
+    -- every loop of this function is unfolded once on the empty list, whichever exist
+    first
+      | simp [he, ApplyVestingSchedules.loop1, ApplyVestingSchedules.loop2, runSettlePlan, applySettle, dstOf, hid, bind, Except.bind, pure, Except.pure]
+      | simp [he, ApplyVestingSchedules.loop1, runSettlePlan, applySettle, dstOf, hid, bind, Except.bind, pure, Except.pure]
     cases hmk : mkCoins c v.a.payDenom (c.s.bank (.pay aid) v.a.payDenom) with
     | error f => rfl
     | ok coins =>
